@@ -173,15 +173,21 @@ CLAIMS['C09'] = dict(
     note="Level 'other': extend and __init__ are not under contract. Assumes deepcopy and the numpy contracts of C10.",
     technique='contract-based deductive verification of invariant preservation per operation (z3) + bounded operation histories against an abstract model')
 CLAIMS['C11'] = dict(
-    category='other',
-    text="Proved for all table sizes: Atoms.extend_types appends every type table of the other structure after this one's, leaves the other "
-         "unmodified and returns offsets equal to the old table lengths whenever a table exists (1 498 obligations over the 2^? paths of the five "
-         "num_*_types properties). The body of extend (append of atoms in order, identity map, index conversion of the other's terms, supersession "
-         "forward/backward, merge of extra columns by label) is only checked with a stated bound on the real code: 669 extensions quick over small "
-         "pairs x partial injective identity maps x {default merging, same fragment twice, explicit shared offsets}, incl. impropers, reversed label "
-         "order and long coefficient texts, against the abstract extension spec.",
-    note="Level 'other': extend's array surgery is bounded, not proved.",
-    technique='contract-based deductive verification of the type-table merge (z3) + bounded enumeration of identity maps')
+    category='proof',
+    text="The whole body of Atoms.extend is executed symbolically on structures, identity maps and term arrays of arbitrary size (loop over the "
+         "identity map cut at an invariant; every combination of present / absent term kinds and of empty / non-empty existing term arrays; "
+         "default and explicit offsets) and the statement's postcondition is discharged: unmapped atoms of the other structure are appended in "
+         "order with position, charge, group, extra row and type id + offset; mapped atoms keep position / charge / group and adopt the other's "
+         "type and extra row; every term of the other structure appears once between the corresponding atoms (mapped -> the identified atom, "
+         "unmapped -> its appended position) with type id + offset and its extra row; an existing term is removed iff it lies on exactly the "
+         "same atoms as a converted new term, forwards or backwards, all other existing terms keep order, type and extra row; all terms refer to "
+         "existing atoms; the other structure is unmodified; the size invariant is re-established. extend_types is proved separately (tables "
+         "appended, offsets = old lengths) and used as a contract. ~2 500 obligations quick (4 kind scenarios), all 16 in thorough. The label-wise "
+         "merge of extra columns inside _extend_extra_fields is an assumed contract exercised by 669 real extensions (bounded).",
+    note="Assumed numpy/Python contracts: np.append, np.delete (monotone bijection), fancy indexing, np.vectorize(dict.get), cdist(...,'cityblock')==0 "
+         "iff rows equal, np.nonzero row indices, filtering comprehension, dict comprehension/update; A1, A5. requires: WF(self), WF(other), injective "
+         "identity map with valid indices.",
+    technique='contract-based deductive verification (symbolic execution of the real AST with loop invariant and callee contracts, z3 E-matching) + bounded enumeration of identity maps')
 CLAIMS['C13'] = dict(
     category='other',
     text="Record-level proof on the real AST of Atoms.save_lmpdat (file object recording every write, structure of arbitrary size, both atom "
